@@ -211,7 +211,7 @@ def expected_loaded(s, pop, requested):
     return seen
 
 
-def schema_c11(rng, idx, ninv=None, complex_ref=False, mi=False, deep=False, redecl=False, diamond=False, inh=None):
+def schema_c11(rng, idx, ninv=None, complex_ref=False, mi=False, deep=False, redecl=False, diamond=False, inh=None, rdiamond=False):
     """targets with 1-3 inverse attributes (own and inherited, aggregate and single), several referrer entities,
     a referrer subtype, referrers that also mention the target through another attribute"""
     nm = f"iv{idx}"
@@ -256,6 +256,19 @@ def schema_c11(rng, idx, ninv=None, complex_ref=False, mi=False, deep=False, red
                  {"name": "dj2r", "sup": "dj", "attrs": [("b2", "optstr", None)]},
                  {"name": "dk", "sups": ["dj2l", "dj2r"], "attrs": [("k", "int", None)]}]
         ent({"entities": ents}, "tg")["inverses"].append(("keeper", False, "own", "holder"))
+    if rdiamond:
+        # a multiple-inheritance diamond BELOW the inverted entity, the shared subtype (rdab) standing in rdb's subtype list BEFORE
+        # further subtypes (rdz, rdy): subtypesIterator must skip the entity it has queued already and go on with the rest of the
+        # list (edL of lazyRefs::checkAnInvAttr); referrers of every subtype are generated (concrete_choices)
+        # (the order of a registered subtype list follows exp2cxx's symbol table, not the declaration order: these names put rdab
+        # first in rdb's list on the current generator; checks/c11.py measures it on the real registry - evidence `subtype walks`)
+        ents += [{"name": "rda", "sup": "rel", "attrs": [("ya", "int", None)]},
+                 {"name": "rdb", "sup": "rel", "attrs": [("yb", "int", None)]},
+                 {"name": "rdz", "sup": "rdb", "attrs": [("y0", "int", None)]},
+                 {"name": "rdy", "sup": "rdb", "attrs": [("y2", "int", None)]},
+                 {"name": "rdab", "sups": ["rda", "rdb"], "attrs": [("yab", "int", None)]},
+                 {"name": "rdq", "sups": ["rdy", "rda"], "attrs": [("y3", "int", None)]},
+                 {"name": "rdp", "sups": ["rdb", "rda"], "attrs": [("y4", "int", None)]}]
     if redecl:
         # a referrer subtype that redeclares the inverted attribute (SELF\rel.one : tsub)
         ents.append({"name": "rre", "sup": "rel", "attrs": [("zr", "int", None)], "redecl": [("one", "rel", "tsub")]})
@@ -280,7 +293,9 @@ def schema_c11(rng, idx, ninv=None, complex_ref=False, mi=False, deep=False, red
         used.insert(min(pos, len(used)), ic)
     for i, (over, attr) in enumerate(used):
         owner = "tsub" if (shape == 1 and i == ninv - 1) else "tg"
-        ent({"entities": ents}, owner)["inverses"].append((f"inv{i}", True, over, attr))
+        # names that are proper prefixes of one another, the longer one declared first (inv_xx, inv_x, inv): a look-up by name must
+        # not stop at the first inverse attribute whose name merely starts with the requested one
+        ent({"entities": ents}, owner)["inverses"].append(("inv" + ("_" + "x" * (len(used) - 1 - i) if i < len(used) - 1 else ""), True, over, attr))
     if shape == 2:
         ent({"entities": ents}, "tsub")["inverses"].append(("solo", False, "qel", "w"))
     return {"name": nm, "entities": ents}
